@@ -12,14 +12,25 @@ import (
 func New() *Handler {
 	return &Handler{
 		m:        new(sync.Mutex),
-		requests: map[int64]chan event{},
+		requests: map[int64]*client{},
 	}
 }
 
 type Handler struct {
 	m        *sync.Mutex
 	counter  int64
-	requests map[int64]chan event
+	requests map[int64]*client
+}
+
+// client is one connected browser.
+type client struct {
+	// events carries events to the client's handler. It is never closed,
+	// because delivery goroutines started by Send may still be sending on it
+	// after the client has gone away.
+	events chan event
+	// done is closed when the client's handler returns, which releases any
+	// delivery goroutine still waiting to send to it.
+	done chan struct{}
 }
 
 type event struct {
@@ -31,15 +42,19 @@ type event struct {
 func (s *Handler) Send(eventType string, data string) {
 	s.m.Lock()
 	defer s.m.Unlock()
-	for _, f := range s.requests {
-		f := f
-		go func(f chan event) {
+	e := event{
+		Type: eventType,
+		Data: data,
+	}
+	for _, c := range s.requests {
+		go func(c *client) {
 			verifYield("deliver")
-			f <- event{
-				Type: eventType,
-				Data: data,
+			select {
+			case c.events <- e:
+			case <-c.done:
+				// The client disconnected before the event was delivered.
 			}
-		}(f)
+		}(c)
 	}
 }
 
@@ -52,15 +67,18 @@ func (s *Handler) ServeHTTP(w http.ResponseWriter, r *http.Request) {
 
 	id := atomic.AddInt64(&s.counter, 1)
 	s.m.Lock()
-	events := make(chan event)
-	s.requests[id] = events
+	c := &client{
+		events: make(chan event),
+		done:   make(chan struct{}),
+	}
+	s.requests[id] = c
 	s.m.Unlock()
 	verifYield("registered")
 	defer func() {
 		s.m.Lock()
 		defer s.m.Unlock()
 		delete(s.requests, id)
-		close(events)
+		close(c.done)
 		verifYield("unregistered")
 	}()
 
@@ -74,7 +92,7 @@ loop:
 				return
 			}
 			timer.Reset(time.Second * 5)
-		case e := <-events:
+		case e := <-c.events:
 			if _, err := fmt.Fprintf(w, "event: %s\ndata: %s\n\n", e.Type, e.Data); err != nil {
 				http.Error(w, err.Error(), http.StatusInternalServerError)
 				return
